@@ -39,6 +39,11 @@ func (cb *CircuitBreaker) Allow() bool {
 		return true
 	}
 
+	// state transitions and the half-open admission counter change together:
+	// serialise them so that racing callers cannot reset each other's counts
+	cb.mu.Lock()
+	defer cb.mu.Unlock()
+
 	state := CircuitBreakerState(cb.state.Load())
 
 	switch state {
@@ -66,6 +71,11 @@ func (cb *CircuitBreaker) RecordSuccess() {
 		return
 	}
 
+	// state transitions and the half-open admission counter change together:
+	// serialise them so that racing callers cannot reset each other's counts
+	cb.mu.Lock()
+	defer cb.mu.Unlock()
+
 	state := CircuitBreakerState(cb.state.Load())
 
 	switch state {
@@ -88,6 +98,11 @@ func (cb *CircuitBreaker) RecordFailure() {
 		return
 	}
 
+	// state transitions and the half-open admission counter change together:
+	// serialise them so that racing callers cannot reset each other's counts
+	cb.mu.Lock()
+	defer cb.mu.Unlock()
+
 	cb.lastFailureTime.Store(time.Now().UnixNano())
 	failures := cb.failures.Add(1)
 
@@ -109,6 +124,9 @@ func (cb *CircuitBreaker) RecordFailure() {
 }
 
 func (cb *CircuitBreaker) Reset() {
+	cb.mu.Lock()
+	defer cb.mu.Unlock()
+
 	cb.state.Store(int32(CircuitClosed))
 	cb.failures.Store(0)
 	cb.successes.Store(0)
